@@ -21,6 +21,9 @@ MANIFEST = {
 }
 
 
+SLOW_EXTS = ["rlte"]
+
+
 def corpus():
     return base.corpus_for(PROP)
 
@@ -54,6 +57,18 @@ def cases(rng, tier):
         if rng.chance(1, 2):
             ops += [("R",), ("O",)]
         out.append(shardprop.mk_case("c11/concurrent-handover", cfg, 1, 2, ops))
+    # one file of a segment is written slowly (its write blocks until DRAIN): while it is unfinished the segment must
+    # not be named by segments.idx; what is observed as published must not change afterwards
+    for i in range(2 if tier == "quick" else 30):
+        cfg = dict(rng.choice(shardprop.CFGS))
+        cap = cfg["fill_factor"] * cfg["event_per_zone"]
+        # (a completed flush first: while segments.idx does not exist yet, loading it lists the directories instead)
+        first = True
+        ops = [("S", 0, rng.below(2)) for _ in range(cap)] if first else []
+        ops += [("O",), ("SLOW", 1 if first else 0, 0, rng.choice(SLOW_EXTS))]
+        ops += [("SN", 0, rng.below(2)) for _ in range(cap)]
+        ops += [("SLEEP", 400), ("OP", "stalled-write"), ("DRAIN",), ("SETTLE",), ("O",)]
+        out.append(shardprop.mk_case("c11/stalled-write", cfg, 1, 2, ops))
     return out
 
 
@@ -96,13 +111,15 @@ def oracle(c, impl):
     for n, o in enumerate(impl["obs"]):
         # (3) crash-free, fault-free histories: a complete segment directory that no compaction took as an input is
         # named by segments.idx (a published segment does not drop out of the index while its files stay behind)
-        if "index" in o and "BLOCKSEG" not in ops and "X" not in ops and "P" not in ops and "HIDE" not in ops:
+        if "index" in o and not o.get("parked_at") and "BLOCKSEG" not in ops and "X" not in ops and "P" not in ops and "HIDE" not in ops:
             listed = {e[0] for e in o["index"]}
             for seg, files in o["hashes"].items():
                 if files and int(seg) not in listed and int(seg) not in inputs and any(f.endswith(".zones") for f in files):
                     return (f"obs#{n}: segment {seg} is complete on disk and was not an input of any compaction batch, "
                             f"but segments.idx does not name it (index {sorted(listed)}): a published segment dropped out of the index")
         for seg, files in o["hashes"].items():
+            if o.get("parked_at") and ("index" not in o or int(seg) not in {e[0] for e in o["index"]}):
+                continue   # not a quiescent observation: only what segments.idx names counts as published
             if seg in seen and seen[seg][1] != files:
                 return (f"obs#{n}: segment {seg} differs from what it held at obs#{seen[seg][0]} "
                         f"(files {sorted(set(files) ^ set(seen[seg][1]))[:4]} ...): rewritten or its id was handed out again")
